@@ -80,6 +80,12 @@ func VH_C06() {
 	otherKey = initiate(h, "j", http.Header{})
 	vsym.Assert(uploadPart(h, "k", other, 1, []byte("o1")).Code() == 200, "C06/bystander-part")
 	vsym.Assert(uploadPart(h, "j", otherKey, 3, []byte("j3")).Code() == 200, "C06/bystander-part")
+	// a new upload started after ours is gone gets an id of its own and
+	// leaves the pending ones alone
+	freshUpload := func(tag string) {
+		fresh := initiate(h, "k", http.Header{})
+		vsym.Assert(fresh != id && fresh != other && fresh != otherKey, tag+"/fresh-upload-id-reused")
+	}
 	bystanders := func(tag string) {
 		po := listParts(h, "k", other, nil).Parts()
 		vsym.Assert(po.OK && len(po.Numbers) == 1 && po.Numbers[0] == 1 && po.ETags[0] == partETag([]byte("o1")), tag+"/bystander-upload-same-key")
@@ -174,6 +180,8 @@ func VH_C06() {
 		rq2.Query = url.Values{"uploadId": {id}}
 		vsym.Assert(Do(h, rq2).ErrCode() == "NoSuchUpload", "C06/second-complete")
 		bystanders("C06/complete")
+		freshUpload("C06/complete")
+		bystanders("C06/complete-then-new-upload")
 	} else {
 		vsym.Reach("C06/rejected")
 		vsym.Assert(!mustAccept, "C06/good-part-list-rejected")
@@ -192,6 +200,8 @@ func VH_C06() {
 		vsym.Assert(after2.Code() == before.Code() && string(after2.Body) == string(before.Body), "C06/abort-leaves-object")
 		vsym.Assert(listParts(h, "k", id, nil).ErrCode() == "NoSuchUpload", "C06/abort-removes-upload")
 		bystanders("C06/abort")
+		freshUpload("C06/abort")
+		bystanders("C06/abort-then-new-upload")
 		// the bystander on the same key can still be completed
 		rqo := BodyReq("POST", "/bkt/k", nil, CompleteBody([]gofakes3.CompletedPart{{PartNumber: 1, ETag: partETag([]byte("o1"))}}))
 		rqo.Query = url.Values{"uploadId": {other}}
